@@ -41,11 +41,21 @@ def is_self_attr(node, name=None):
 
 
 def fitted_guard(test):
-    """+1: `self.is_fitted`, -1: `not self.is_fitted`, 0: something else"""
+    """+1: `self.is_fitted`, -1: `not self.is_fitted`, 0: a test that does not look at is_fitted.
+    Fail closed: a compound test that mentions self.is_fitted cannot be decided here"""
     if is_self_attr(test, "is_fitted"):
         return 1
     if isinstance(test, ast.UnaryOp) and isinstance(test.op, ast.Not) and is_self_attr(test.operand, "is_fitted"):
         return -1
+    if isinstance(test, ast.Compare) and len(test.ops) == 1 and is_self_attr(test.left, "is_fitted") \
+            and isinstance(test.comparators[0], ast.Constant) and isinstance(test.comparators[0].value, bool):
+        v = test.comparators[0].value
+        if isinstance(test.ops[0], (ast.Is, ast.Eq)):
+            return 1 if v else -1
+        if isinstance(test.ops[0], (ast.IsNot, ast.NotEq)):
+            return -1 if v else 1
+    if any(is_self_attr(n, "is_fitted") for n in ast.walk(test)):
+        raise Unrecognised("cannot decide the guard `%s` for a fitted model" % ast.unparse(test))
     return 0
 
 
@@ -93,7 +103,9 @@ def predict_path_writes(cls, entry="predict"):
             yield t
 
     def walk(stmts, nested):
-        """returns True when the statement list certainly returns (for `if self.is_fitted: return`)"""
+        """returns True when, for a fitted model, control certainly leaves the statement list before its end
+        (`if self.is_fitted: return` / `continue` / `break` / `raise`): what follows in that list — the rest of the
+        function, or of the loop body for `continue` — is not on the fitted path"""
         for st in stmts:
             if isinstance(st, ast.FunctionDef):
                 continue
@@ -131,6 +143,12 @@ def predict_path_writes(cls, entry="predict"):
             if isinstance(st, ast.Return):
                 if st.value is not None:
                     exprs(st.value, nested)
+                return True
+            if isinstance(st, (ast.Continue, ast.Break)):
+                return True
+            if isinstance(st, ast.Raise):
+                if st.exc is not None:
+                    exprs(st.exc, nested)
                 return True
             if isinstance(st, (ast.Assign, ast.AugAssign, ast.AnnAssign)):
                 tl = st.targets if isinstance(st, ast.Assign) else [st.target]
